@@ -112,6 +112,14 @@ func c20Scenario() (choice.Scenario, func() any) {
 		inPayload("tag55799(null)", eBad, func() []byte { return []byte{0xd9, 0xd9, 0xf7, 0xf6} }),
 		inPayload("tag55799(tag24(undefined))", eBad, func() []byte { return []byte{0xd9, 0xd9, 0xf7, 0xd8, 0x18, 0xf7} }),
 		inPayload("tag(uint)", eBad, func() []byte { return []byte{0xd8, 0xa5, 0x01} }),
+		// claims maps that cannot be decoded: unregistered profile, wrongly typed claim; the same with the profile key
+		// (265) spelled with a non-shortest head
+		inPayload("map-unknown-profile", eBad, func() []byte { return c20ClaimsVariant(base.payload, "http://unknown.example/p", 0, false) }),
+		inPayload("map-unknown-profile-long-head-key", eBad, func() []byte { return c20ClaimsVariant(base.payload, "http://unknown.example/p", 4, false) }),
+		inPayload("map-unknown-profile-longest-head-key", eBad, func() []byte { return c20ClaimsVariant(base.payload, "http://unknown.example/p", 8, false) }),
+		inPayload("map-wrong-type-claim", eBad, func() []byte { return c20ClaimsVariant(base.payload, "", 0, true) }),
+		inPayload("map-wrong-type-claim-long-head-profile-key", eBad, func() []byte { return c20ClaimsVariant(base.payload, "", 4, true) }),
+		inPayload("claims-map-long-head-profile-key", eOK, func() []byte { return c20ClaimsVariant(base.payload, "", 4, false) }),
 		inPayload("nested-sign1", eBad, func() []byte { return envelope(base.prot, nil, base.payload, base.sig) }),
 		{"bstr-empty", eBad, func() *mcbor.Node { return mcbor.B(nil) }},
 		{"map-unwrapped", eBad, claims},
@@ -234,6 +242,37 @@ func c20Scenario() (choice.Scenario, func() any) {
 	}, nil
 }
 
+// c20ClaimsVariant rewrites the claims map: profile value replaced (if given), the profile key's head widened, the client
+// id turned into a text string.
+func c20ClaimsVariant(payload []byte, profile string, keyW int, wrongType bool) []byte {
+	t, err := mcbor.DecodeAll(payload)
+	if err != nil {
+		panic(choice.HarnessError{Msg: "c20 base payload: " + err.Error()})
+	}
+	found := false
+	for i, p := range t.Pairs {
+		k, _ := p[0].Int()
+		switch k {
+		case 265:
+			found = true
+			if profile != "" {
+				t.Pairs[i][1] = mcbor.T(profile)
+			}
+			if keyW != 0 {
+				t.Pairs[i][0] = mcbor.U(265).W(keyW)
+			}
+		case 2394:
+			if wrongType {
+				t.Pairs[i][1] = mcbor.T("not-an-integer")
+			}
+		}
+	}
+	if !found {
+		panic(choice.HarnessError{Msg: "c20 base payload carries no key 265"})
+	}
+	return mcbor.Encode(t)
+}
+
 // c20Judge: success implies strict structure; both by construction (bad classes) and by an independent parse.
 func c20Judge(c *choice.Ctx, st *Stats, wire []byte, bad, open []string) {
 	st.State(wire)
@@ -349,4 +388,3 @@ func repoDir() string {
 	}
 	return "/repo"
 }
-
